@@ -95,7 +95,7 @@ func CopyObjectProperties(to, from *Object) (*Object, error) {
 	to.Bto = replaceIfItemCollection(to.Bto, from.Bto)
 	to.CC = replaceIfItemCollection(to.CC, from.CC)
 	to.BCC = replaceIfItemCollection(to.BCC, from.BCC)
-	if from.Duration == 0 {
+	if from.Duration != 0 {
 		to.Duration = from.Duration
 	}
 	to.Source = replaceIfSource(to.Source, from.Source)
